@@ -40,7 +40,8 @@ def rule_dedup_key(ctx):
     # (b) inside make_dedup_key: tuples that contain <x>.constant_result
     tuples = [t for t in ast.walk(fn) if isinstance(t, ast.Tuple) and any(isinstance(e, ast.Attribute) and e.attr == 'constant_result' for e in t.elts)]
     if not tuples:
-        raise AnalysisError('make_dedup_key: no key tuple containing constant_result found (anchor moved)')
+        # the syntactic shape is gone (e.g. the item key is built in a helper from a local): the obligation is decided semantically by C09-KEYCOV
+        r.info('make_dedup_key: no key tuple that mentions .constant_result directly; sign / type-tag clauses are decided by C09-KEYCOV only')
     for t in tuples:
         key = 'ExprNodes.make_dedup_key:item-key'
         r.inst(key, sample=node_src(t, 120))
@@ -70,7 +71,13 @@ def rule_dedup_key(ctx):
         if isinstance(n, ast.Assign) and isinstance(n.value, (ast.ListComp, ast.List)) and isinstance(n.targets[0], ast.Name) and _mentions(n.value, 'constant_result'):
             item_var = n.targets[0].id
     if item_var is None:
-        raise AnalysisError('make_dedup_key: list of item keys not found')
+        # any list / comprehension assigned in the function is a candidate container of item keys
+        for n in walk_no_nested(fn):
+            if isinstance(n, ast.Assign) and isinstance(n.value, (ast.ListComp, ast.List)) and isinstance(n.targets[0], ast.Name):
+                item_var = n.targets[0].id
+    if item_var is None:
+        r.info('make_dedup_key: list of item keys not recognised; the order clause is decided by C09-KEYCOV only')
+        return r
     r.inst('ExprNodes.make_dedup_key:container')
     for n in walk_no_nested(fn):
         # any expression that can evaluate to an order-losing constructor applied to the item keys
@@ -151,6 +158,46 @@ def rule_leading_zero(ctx):
     return r
 
 
-def run(ctx):
+def _b32(ctx):
+    """C09-B32 recognises the emitted decoder call by its C local names; when those are renamed (behaviour-preserving) it cannot find its anchor.  The obligations it
+    decides (sign, digit order, radix / alphabet / decoder-base agreement, separators) are also decided by C09-NUMTAB, which reads the emitted code without fixed names:
+    the give-up is then informational."""
     from ..rules import b32
-    return [rule_dedup_key(ctx), rule_num_keys(ctx), rule_leading_zero(ctx), b32.rule_b32(ctx)]
+    try:
+        return b32.rule_b32(ctx)
+    except AnalysisError as e:
+        if not str(e).startswith('decoder call'):
+            raise
+        r = Rule('C09-B32', 'big integer constants: base-32 text encoder (gave up on the spelling of the emitted decoder call; decided by C09-NUMTAB)', floor=0)
+        r.info('C09-B32 gave up: %s - the same obligations are decided by C09-NUMTAB' % e)
+        return r
+
+
+def run(ctx):
+    from ..rules import sC09
+    return [rule_dedup_key(ctx), rule_num_keys(ctx), rule_leading_zero(ctx), _b32(ctx),
+            sC09.rule_keycov(ctx), sC09.rule_literals(ctx), sC09.rule_numtab(ctx), sC09.rule_fold(ctx), sC09.rule_ctv(ctx)]
+
+
+# ---------------------------------------------------------------------------------------------------------------------------------
+# fourth strengthening round (session G11): rules of sa/rules/sC09.py
+TECHNIQUE += ('; finite-domain folding (sa/rules/sC25.ObjFolder: AST interpretation with a small object model, nothing of the repository is executed) of the literal readers / '
+              'emitters, of Optimize.ConstantFolding, of the node classes\' calculate_constant_result, of the pooling-key construction and of the number-table generator; the emitted '
+              'table initialisation code is interpreted by a reader for its small C subset; references are the checker\'s own CPython (int(text, 0), float(), operator semantics)')
+DECIDES += (' C09-KEYCOV: make_dedup_key and the key expressions at all five get_py_const(dedup_key=...) sites (tuple, slice, frozenset() of nothing / a string / an argument, '
+            'frozenset from items) give different keys to 21 pairs of constants that CPython distinguishes (type, sign of zero, order, length, None, slice start/stop/step, constant '
+            'multiplier also nested, container kind, C type). '
+            'C09-LIT: Utils.str_to_number, IntNode.value_as_c_integer_string (read back with the C literal grammar), the text IntNode.generate_evaluation_code pools, '
+            'FloatNode.get_constant_c_result_code (nan / +-inf / +-0.0 / finite), IntNode.find_suitable_type_for_value at the 32-bit boundaries and IntNode.coerce_to(float) denote the '
+            'value CPython gives the literal, for every base prefix x sign x digit class x C suffix. '
+            'C09-NUMTAB: generate_num_constants folded on the 63 non-empty combinations of constant classes; in the emitted code every #define names the slot that is filled with its '
+            'constant (element types hold their values, offsets, index arithmetic, PyLong_FromLong only up to 32 bits, big-int text separators). '
+            'C09-FOLD: ConstantFolding.visit_UnopNode / visit_BinopNode / visit_BoolBinopNode / _negate_operator / _calculate_constant_seq on every operand kind (bool, int, float, both signs, zero, '
+            'C char, C suffixes, symbolic multipliers): a replacement literal has the class, text and constant_result of the value CPython computes. '
+            'C09-CTV: compile_time_binary_operators / compile_time_unary_operators agree with the Python operators; calculate_constant_result of tuple, list, set, dict, slice, index, '
+            'conditional, and/or, not, unary, binary and comparison nodes gives the CPython value.')
+NOT_DECIDED = ('arithmetic on run-time magnitudes inside one formula where no finite partition exists beyond the classes used (e.g. which huge values PyLong_FromString accepts); '
+               'C type selection of folded C expressions (widest_numeric_type) - one abstract C type is used; calculate_constant_result of the remaining ~30 node classes '
+               '(string methods, casts, comprehension-like nodes); the C compiler\'s reading of float literal texts beyond sign / inf / nan classes; '
+               'PrimaryCmpNode cascades folded by visit_PrimaryCmpNode.')
+MUTATIONS = 'see /verif/mutants/C09/*/meta.json (41 brainstormed mutants: 32 breaking - all reported, 9 behaviour-preserving - all silent)'
